@@ -1,41 +1,66 @@
 """C11 extension "macscope": (A) the macro NAME TABLE and (B) BINCLUDE windows.  Last phase of checks/c11.py main().
 
-(A) spec/MacroScope.tla (+ MacroScope_MC.tla, cfgs MacroScope_MC*.cfg, MacroScope_Gen*.cfg)
+(A) spec/MacroScope.tla + MacroScope_MC.tla (cfgs MacroScope_MC.cfg quick, MacroScope_MC5.cfg thorough, _fixed, _dev_*)
     Machine side shaped like asmmac.c AddMacro/MacroAdder/FoundMacroByName/ResetMacroDefines, as.c ReadMacro + the end of
     MACRO_OutProcessor (PubSect, GName loop, the {GLOBAL} copy), Produce_Code ('!' prefix, macro search before the
     built-in lookup, the macro processor's own statements first), ExpandMacro, the pass loop, asmif.c CodeIFDEF;
-    sections are the operators of spec/Symbols.tla (INSTANCE).  Declarative side: position arithmetic on the
-    definition / section history (known in a section and its subsections; innermost wins; second definition for a
-    section = error 1815; macro hides machine / pseudo instruction, '!' reaches it; unknown = error 1200; pass 1 knows
-    what stands in front of the call, later passes know every definition of pass 1; a macro defined in a macro body is
-    defined for the section of the CALL).
-    (M) TLC, every program over the alphabet (SECTION/ENDSECTION, definitions plain/{PUBLIC}/{PUBLIC:PARENT}/{GLOBAL}/
-        {GLOBAL:PARENT}, macro defining a macro, [!]calls, calls and definitions of the section-qualified names S1_AA,
-        S2_AA, S1_S2_AA, IFDEF), two base names, <= 2 sections nested <= 2: quick <= 4 statements (names AA+BB) and
-        <= 3 (AA + NOP machine instruction / DB pseudo instruction / INCLUDE macro-processor statement); thorough
-        <= 5 resp. 4.  Invariants: lookup as coded = declarative outcome for one pass and with a forward reference
-        (InvAgrees), the WHOLE table finds the innermost known definition for every name in every section (InvTable),
-        pass 3 = pass 2 (InvLaterPassesAlike), deviations named; Fixed = all: no deviation fires; each deviation
-        switched on is refuted by TLC (MacroScope_MC_dev_*.cfg).
-    (G) MacroScope_Gen: TLC prints every program whose last statement is a probe or gets it rejected, with the outcome
-        the manual promises for one pass and for a run with a forward reference, the outcome of the code as it is and
-        the deviations fired.  The harness renders each (every body lays down a byte naming the defining statement;
-        section names s1, s2; `!db` inside bodies), assembles it with the real asl once as it is and - when a second
-        pass matters or for a seeded share - once with a forward reference, and compares the code bytes / rejection /
-        documented error numbers (1200, 1815) with what TLC printed.
-    Verdict-bearing: programs without IFDEF (the manual speaks of symbols only there: observed against the as-coded
-    model, SPEC-DRIFT) and without a macro named like a macro-processor statement (CoreNotHidden: drift).
-(B) spec/BinWindow.tla (+ BinWindow_MC.tla, cfgs BinWindow_MC*.cfg, BinWindow_Gen*.cfg)
-    CodeBINCLUDE (asmallg.c) as coded: unsigned 32-bit offset, Len = -1 means "rest", ChkPC(PC + Len - 1), 256-byte
-    chunks, one address unit per byte read, short read; declarative: bytes = file[offset, offset+length), PC advances
-    by that many, reading past the end = error 1600.  TLC checks operator = declarative on the whole grid and prints the
-    grid with the expected bytes (file i -> (i*7+3)%256, the generator of MacroProg.BinFile); the harness creates the
-    files, assembles `db 1 / lb: binclude ... / dw lb / dw $` resp. the same at address 0 and compares the code file.
-    Word-granular target (TMS32010 family: 16-bit address units): the manual counts bytes and is silent; observed
-    against the as-coded operator, SPEC-DRIFT only.
+    sections are the operators of spec/Symbols.tla (INSTANCE: DoSection, DoEndSection, IdentifySection, SectName).
+    Declarative side: position arithmetic on the definition / section history (a definition is known in its section
+    and the subsections; the innermost known one is meant; second definition for a section = error 1815, the first
+    stays; a macro hides a machine / pseudo instruction, '!' reaches the original; neither = error 1200; pass 1 knows
+    what stands in front of the call, every later pass knows all definitions of pass 1 (manual, BSR example); a macro
+    defined in a macro body is defined when the outer one is expanded, for the section of the CALL; {PUBLIC[:PARENT]}
+    assigns to the global level / the parent; {GLOBAL[:PARENT]} makes an additional macro <section path>_<name> there).
+    (M) TLC, every program of a family (state = program text): statements SECTION / ENDSECTION / definition with
+        {} {PUBLIC} {PUBLIC:PARENT} {GLOBAL} {GLOBAL:PARENT} / macro defining a macro / [!]call / call and definition
+        of the section-qualified names S1_AA S2_AA S1_S2_AA / IFDEF; two base names per family, <= 2 SECTION statements
+        nested <= 2.  Quick: gen4 (AA + BB, 18 statements, <= 4), focus6 (plain definitions, defining macro, calls,
+        <= 6), nop / db / incl (AA + a machine instruction / pseudo instruction / macro-processor statement, <= 3):
+        123 k programs.  Thorough: free5 (<= 5), full4 (26 statements), focus7, nop4 db4 incl4.  Invariant InvAll:
+        lookup as coded = declarative outcome with one pass and with a forward reference (Agrees), the WHOLE table
+        finds the innermost known definition for every name in every section of the program (TableIsInnermostKnown),
+        pass 3 = pass 2, deviations named.  MacroScope_MC_fixed: with all repairs no deviation fires, no crash.
+        Witness programs (ASSUME) show every deviation in the code as it is; thorough also lets TLC refute
+        NoGlobCopyUninit / NoGlobCopyReplaces / NoCrash / NoCoreNotHidden.
+    (G) the same TLC run prints every program (up to the family's print length) whose last statement is a probe or gets
+        it rejected, with the outcome the manual promises for one pass and with a forward reference, the outcome of the
+        code as it is and the deviations fired.  The harness renders each (every body lays down a byte naming the
+        defining statement; sections s1, s2; `!db` inside bodies; two-pass variant: `dw fwd` ... `fwd:`), assembles it
+        with the real asl - the two-pass variant when the second pass matters in the model, and for a seeded share
+        otherwise - and compares code bytes / rejection / documented error numbers (1200, 1815) with what TLC printed.
+        Quick: 12.3 k programs, 14 k assemblies.
+    Verdict-bearing: programs without IFDEF (manual: "IFDEF <symbol>" - macro names are observed against the as-coded
+    model, SPEC-DRIFT) and without a macro named like a macro-processor statement (CoreNotHidden: SPEC-DRIFT).
+(B) spec/BinWindow.tla + BinWindow_MC.tla (cfgs BinWindow_MC.cfg, _fixed, _dev)
+    CodeBINCLUDE (asmallg.c) as coded: unsigned 32-bit offset, Len = -1 means "rest" (FSize - Ofs read back signed),
+    ChkPC(PC + Len - 1) on unsigned 64 bit, 256-byte chunks with one ADDRESS UNIT per byte read, short read = error;
+    declarative: bytes = file[offset, offset+length), PC advances by that many, reading past the end = error 1600;
+    negative arguments, an empty window behind the end and wider address units: manual silent (indef).  MacroProc's
+    BinWindow/BinOK (the C11 hand expansion) is INSTANCEd: the declarative side extends it (InvExtends).
+    (M)+(G) TLC checks operator = declarative on the grid (file sizes 0 1 6 255 256 257 600 1030; offset omitted 0 1
+    n-1 n n+1 -1 256; length omitted 0 1 2 rest-1 rest rest+1 n 255 256 257 513 -1 -2; statement at address 0 / 1:
+    860 cases), chunk structure, EmptyWindowAtZero the only deviation, and prints every case with the whole expected
+    code image of  [db 1] / lb: binclude ... / dw lb / dw $  (Z80; label before, `$` after) and of
+    [nop] / lb: binclude ... / data lb,$  on the TMS32010 (16-bit address units: as coded one WORD per byte, each
+    chunk stores the bytes read followed by as many bytes BINCLUDE never wrote - uninitialised buffer memory that differs
+    from run to run; an odd length is nothing special).  The harness writes the files (i -> (i*7+3)%256, MacroProg.BinFile),
+    assembles 1720 programs and compares the code file.  Z80 definite cases carry the verdict; indefinite cases and the
+    word target are compared with the as-coded operator (SPEC-DRIFT).
+NOT covered: case-sensitive mode, {EXPORT}/-M, macro names built by {symbol} expansion, section names re-used under
+different parents, PUBLIC:<name> / PARENT2.., STRUCT names (looked up after macros), NESTMAX, BINCLUDE near the segment
+limit / under PHASE / in STRUCT, other word-granular families.
 
-Findings of the pinned tree (known_findings/C11-macscope.json, proposed_fixes/C11-global-macro-copy.diff,
-proposed_fixes/C11-binclude-empty-window-at-zero.diff): see FINDINGS in this file.
+FINDINGS of the pinned tree (known_findings/C11-macscope.json; each flips to "fixed" when its diff is applied - the
+harness then takes the repaired deviation out of the as-coded model, see repaired()):
+  GlobCopyUninit + GlobCopyReplaces   proposed_fixes/C11-global-macro-copy.diff (.md): the additional macro of {GLOBAL} is
+      uncallable (error 1850 from an uninitialised UseCounter), silently replaces an existing macro of its name (no
+      error 1815) and frees it even while it is being expanded (SIGSEGV).
+  EmptyWindowAtZero   proposed_fixes/C11-binclude-empty-window-at-zero.diff (.md): a BINCLUDE that includes nothing is
+      "address overflow" when it stands at address 0.
+  Both diffs applied to a scratch copy: `VERIF_REPO=<copy> VERIF_MACSCOPE_FIXED=GlobCopyUninit,GlobCopyReplaces,
+  EmptyWindowAtZero`: 0 mismatches, no known finding hit, 201/201 golden tests.
+  Observed, not judged (SPEC-DRIFT): CoreNotHidden (a macro named INCLUDE / IF / REPT ... can be defined, never called);
+  the TMS32010 code file of a BINCLUDE holds uninitialised memory.
 Mutations tried: see MUTATIONS at the end of this file.
 """
 import os
